@@ -19,7 +19,8 @@ PROPERTY = 'C06'
 LEVEL = 'model_checking'
 
 ENCS = ['latin_1', 'cp500', 'cp037', 'ascii']
-SHAPES = ['minimal', 'typed', 'pds_small', 'pds_multi', 'icc_binary', 'de43', 'near_max', 'pan', 'blanks', 'pds_mixed']
+SHAPES = ['minimal', 'typed', 'pds_small', 'pds_multi', 'icc_binary', 'de43', 'near_max', 'pan', 'blanks', 'pds_mixed',
+          'file_header', 'file_trailer']
 
 
 def shape_message(shape, i=0):
@@ -55,6 +56,14 @@ def shape_message(shape, i=0):
         return 'PKG', {'MTI': '1240', 'DE3': '      ', 'DE72': ((' ' * 40 + 'x') * 25)[:990 + i % 9],
                        'DE54': (('@' * 30 + 'y') * 30)[:800 + (i * 7) % 100], 'DE127': ' ' * (100 + i % 50),
                        'PDS0158': ' ' * 12}
+    if shape == 'file_header':
+        # the administrative messages every clearing file carries (MTI 1644, function code 697 = header, 695 =
+        # trailer with the message count); one physical file may hold several logical files, so they occur anywhere
+        return 'PKG', {'MTI': '1644', 'DE24': '697', 'PDS0105': '0012406010000011111%06d' % i, 'PDS0122': 'T',
+                       'DE71': i + 1}
+    if shape == 'file_trailer':
+        return 'PKG', {'MTI': '1644', 'DE24': '695', 'PDS0105': '0012406010000011111%06d' % i,
+                       'PDS0301': '%016d' % (1000 + i), 'PDS0306': '%08d' % (i + 1), 'DE71': i + 1}
     if shape == 'pds_mixed':
         # PDSxxxx keys (they go into the first carrier) next to later carriers supplied ready-made by the caller
         return 'PKG', {'MTI': '1240', 'DE2': '5444330000001111', 'PDS0023': 'CT6', 'PDS0158': 'ABCDEFGHIJKL',
@@ -425,6 +434,12 @@ def tasks(tier, seed):
         for enc, blocked, custom in (('cp500', True, False), ('latin_1', False, True), ('cp037', True, True)):
             ts.append({'t': 'cases', 'cases': [{'kind': 'rt', 'seq': {'count': 4500, 'step': 1 + 3 * blocked},
                                                 'enc': enc, 'blocked': blocked, 'custom': custom}]})
+        # ... and beyond 4 and 8 MiB (16000 / 30000 messages)
+        ts.append({'t': 'cases', 'cases': [{'kind': 'rt', 'seq': {'count': 16000, 'step': 1}, 'enc': 'cp500',
+                                            'blocked': True, 'custom': False}]})
+        if tier == 'thorough':
+            ts.append({'t': 'cases', 'cases': [{'kind': 'rt', 'seq': {'count': 30000, 'step': 5}, 'enc': 'latin_1',
+                                                'blocked': True, 'custom': False}]})
     ts.append({'t': 'cases', 'cases': [{'kind': 'rt_inplace', 'enc': enc, 'blocked': blocked, 'edits': edits}
                                        for edits in INPLACE_EDITS for enc in ('latin_1', 'cp500')
                                        for blocked in (False, True)]})
